@@ -4,8 +4,14 @@
 //!   `<id> build <n> (<name-hex> <body-hex>)*`            serialize the ordered map, parse the image back
 //!   `<id> parse <img-hex> <n> (<name-hex> <body-hex>)*`  spec-built (foreign) image of the listed files
 //!   `<id> parse <img-hex> ~`                             malformed image (only ok/err/panic matters)
+//!   `<id> bigbuild <count> <seed> <model|oracle>`        large ordered map regenerated on both sides from the
+//!        parameters (`big_name(i)`: 1-3 characters, distinct; `big_body(i, seed)`: empty or one byte): serialize,
+//!        parse back.  `oracle` = top-of-domain sizes (32767, 32768, 65535 files) where the list-based Lean model
+//!        is quadratic: the model line echoes the implementation line and only the specification is judged
+//!        (linear-time conformance check of the image + count / name hash / body hash of the parsed map).
 //! Implementation lines
 //!   build: `ok <img-hex> <n> (<name> <body>)*` | `ok <img-hex> err` | `err` | `panic`
+//!   bigbuild: `ok <img-hex> <n> <fnv64 of names in order> <fnv64 of bodies in order>` | `ok <img-hex> err` | `err` | `panic`
 //!   parse: `ok <n> (<name> <body>)*` | `ok ?` (some name outside the sub-codec alphabet) | `err` | `panic`
 //! Error classes are not distinguished (the property does not name any).
 use crate::util::*;
@@ -120,6 +126,72 @@ fn fmt_files(files: &[(String, Vec<u8>)]) -> String {
 fn fmt_map(m: &IndexMap<String, Vec<u8>>) -> String {
     let v: Vec<(String, Vec<u8>)> = m.iter().map(|(k, v)| (k.clone(), v.clone())).collect();
     fmt_files(&v)
+}
+
+// ---------------------------------------------------------------------------------------------
+// large maps from parameters (the Lean driver has the same two functions)
+// ---------------------------------------------------------------------------------------------
+
+const BIG_ALPHA: &[u8; 41] = b"abcdefghijklmnopqrstuvwxyz0123456789ABCDE";
+
+/// Bijective base-41 numeral of `i`: 1 character below 41, 2 below 1722, else 3 (i < 70643).
+pub fn big_name(i: usize) -> String {
+    let a = |k: usize| BIG_ALPHA[k] as char;
+    if i < 41 {
+        format!("{}", a(i))
+    } else if i < 41 + 1681 {
+        let j = i - 41;
+        format!("{}{}", a(j / 41), a(j % 41))
+    } else {
+        let j = i - 1722;
+        format!("{}{}{}", a(j / 1681), a((j / 41) % 41), a(j % 41))
+    }
+}
+
+/// Empty (one third) or a single byte.
+pub fn big_body(i: usize, seed: u64) -> Vec<u8> {
+    let h = ((i as u64) * 2654435761 + seed * 40503 + 12345) % (1u64 << 32);
+    if h % 3 == 0 {
+        Vec::new()
+    } else {
+        vec![((h / 256) % 256) as u8]
+    }
+}
+
+fn fnv_step(h: u64, b: u8) -> u64 {
+    (h ^ b as u64).wrapping_mul(0x100000001b3)
+}
+
+/// (count, fnv64 over `name ++ [0]` in order, fnv64 over `len as 4 LE bytes ++ body` in order)
+fn summary<'a, I: Iterator<Item = (&'a String, &'a Vec<u8>)>>(it: I) -> (usize, u64, u64) {
+    let (mut n, mut hn, mut hb) = (0usize, 0xcbf29ce484222325u64, 0xcbf29ce484222325u64);
+    for (k, v) in it {
+        n += 1;
+        for b in k.as_bytes() {
+            hn = fnv_step(hn, *b);
+        }
+        hn = fnv_step(hn, 0);
+        for b in (v.len() as u32).to_le_bytes() {
+            hb = fnv_step(hb, b);
+        }
+        for b in v {
+            hb = fnv_step(hb, *b);
+        }
+    }
+    (n, hn, hb)
+}
+
+fn hex_fast(b: &[u8]) -> String {
+    if b.is_empty() {
+        return "-".to_string();
+    }
+    const D: &[u8; 16] = b"0123456789abcdef";
+    let mut s = Vec::with_capacity(b.len() * 2);
+    for x in b {
+        s.push(D[(x >> 4) as usize]);
+        s.push(D[(x & 15) as usize]);
+    }
+    String::from_utf8(s).unwrap()
 }
 
 // ---------------------------------------------------------------------------------------------
@@ -301,6 +373,20 @@ pub fn gen(seed: u64, tier: &str) -> Vec<String> {
         }
     }
 
+    // 2b. large maps regenerated from parameters: the model is tied at 257 and 1024 (thorough: 4096) files; the top of
+    //     the domain (count needs the sign bit / all bits of the 16-bit field) is judged by the
+    //     specification only
+    let s0 = rng.below(1000);
+    // (the list-based model needs ~1.5 s for 1024 files and ~25 s for 4096: the latter is thorough-only)
+    for (k, mode) in [(257usize, "model"), (1024, "model"), (32767, "oracle"), (32768, "oracle"), (65535, "oracle")] {
+        push(&mut lines, format!("bigbuild {} {} {}", k, s0, mode));
+    }
+    if thorough {
+        for (k, mode) in [(4096usize, "model"), (49152, "oracle"), (65534, "oracle"), (65535, "oracle")] {
+            push(&mut lines, format!("bigbuild {} {} {}", k, s0 + 1, mode));
+        }
+    }
+
     // 3. foreign (spec-built) conforming images
     let foreign = if thorough { 5000 } else { 260 };
     let layouts = [
@@ -450,6 +536,26 @@ pub fn run_line(_st: &mut super::State, line: &str) -> String {
                     Err(_) => format!("ok {} panic", hex(&img)),
                     Ok(Err(_)) => format!("ok {} err", hex(&img)),
                     Ok(Ok(back)) => format!("ok {} {}", hex(&img), fmt_map(&back)),
+                },
+            }
+        }
+        "bigbuild" => {
+            let count: usize = f[2].parse().unwrap();
+            let seed: u64 = f[3].parse().unwrap();
+            let mut m: IndexMap<String, Vec<u8>> = IndexMap::with_capacity(count);
+            for i in 0..count {
+                m.insert(big_name(i), big_body(i, seed));
+            }
+            match no_panic(|| fe9_arc::serialize(&m)) {
+                Err(_) => "panic".to_string(),
+                Ok(Err(_)) => "err".to_string(),
+                Ok(Ok(img)) => match no_panic(|| fe9_arc::parse(&img)) {
+                    Err(_) => format!("ok {} panic", hex_fast(&img)),
+                    Ok(Err(_)) => format!("ok {} err", hex_fast(&img)),
+                    Ok(Ok(back)) => {
+                        let (n, hn, hb) = summary(back.iter());
+                        format!("ok {} {} {:016x} {:016x}", hex_fast(&img), n, hn, hb)
+                    }
                 },
             }
         }
